@@ -53,6 +53,26 @@ class Scripted(_random.Random):
         self.trace.append(('bits', k, a, alts))
         return a
 
+    def _randbelow(self, n):
+        # the primitive behind randint / randrange / choice / shuffle / sample: every admissible answer 0 .. n-1 is a possible one;
+        # explored in full for small n, at both ends and in the middle otherwise
+        i = len(self.trace)
+        if n <= 2 ** self.fullbits:
+            alts = list(range(n))
+        else:
+            alts = sorted(set(x for x in (0, 1, 2, n - 1, n - 2, n // 2, n // 2 + 1) if 0 <= x < n))
+        if i < len(self.script):
+            a = self.script[i]
+            if not (0 <= a < n):
+                a = a % n
+        elif i >= self.horizon:
+            a = 0
+            alts = [0]
+        else:
+            a = alts[0]
+        self.trace.append(('below', n, a, alts))
+        return a
+
     def random(self):
         i = len(self.trace)
         alts = FLOATS
